@@ -118,22 +118,27 @@ func (s *Stream) logDroppedDataWithThrottling() {
 // callSinksAsync asynchronously calls all sink functions
 func (s *Stream) callSinksAsync(results []map[string]any) {
 	verifYieldPoint("sinks.call")
-	// Safely access sinks slice using read lock
+	// Take a snapshot of the sink slices under the read lock and invoke the sinks
+	// after releasing it (like invokeSinksInline). Sinks are user code: one that
+	// calls AddSink/AddSyncSink on this stream needs the write lock, which would
+	// wait forever for the read lock its own caller still held. The slices are
+	// append-only, so the snapshot headers stay valid without copying elements;
+	// a sink registered during the dispatch takes effect from the next result.
 	s.sinksMux.RLock()
-	defer s.sinksMux.RUnlock()
+	sinks := s.sinks[:len(s.sinks):len(s.sinks)]
+	syncSinks := s.syncSinks[:len(s.syncSinks):len(s.syncSinks)]
+	s.sinksMux.RUnlock()
 
-	if len(s.sinks) == 0 && len(s.syncSinks) == 0 {
+	if len(sinks) == 0 && len(syncSinks) == 0 {
 		return
 	}
 
-	// Directly iterate sinks slice to avoid copy overhead
-	// Since submitSinkTask is async, won't hold lock for long time
-	for _, sink := range s.sinks {
+	for _, sink := range sinks {
 		s.submitSinkTask(sink, results)
 	}
 
 	// Execute synchronous sinks (blocking, sequential)
-	for _, sink := range s.syncSinks {
+	for _, sink := range syncSinks {
 		// Recover panic for each sync sink to prevent crashing the stream
 		func() {
 			defer func() {
